@@ -60,8 +60,8 @@ Lemma body1_some d ds n rest : (1 <= n)%nat ->
   = Ok (ONorm MTup0 (("i", MOk (MSome (m_dat pvv d))) :: e_filled (ds ++ [d]) :: e_outs (ds ++ [d]) (n - 1) :: rest)).
 Proof.
   intros Hn. unfold body1, e_filled, e_outs.
-  cbn -[Z.of_nat Z.to_nat Z.ltb set_nth slots Z.add].
-  destruct (Z.ltb_spec (Z.of_nat (List.length ds)) 0) as [Hlt|_]; [lia|].
+  cbn -[Z.of_nat Z.to_nat Z.leb set_nth slots Z.add].
+  destruct (Z.leb_spec 0 (Z.of_nat (List.length ds))) as [_|Hlt]; [|lia]. cbn [negb].
   rewrite Nat2Z.id, set_nth_slots by exact Hn.
   cbn -[Z.of_nat Z.add slots].
   repeat f_equal.
@@ -126,8 +126,8 @@ Lemma body2_step pre d ds n acc rest :
     end.
 Proof.
   unfold body2, e_val.
-  cbn -[Z.of_nat Z.to_nat Z.ltb slots prim_tree nth_error].
-  destruct (Z.ltb_spec (Z.of_nat (List.length pre)) 0) as [Hlt|_]; [lia|].
+  cbn -[Z.of_nat Z.to_nat Z.leb slots prim_tree nth_error].
+  destruct (Z.leb_spec 0 (Z.of_nat (List.length pre))) as [_|Hlt]; [|lia]. cbn [negb].
   rewrite Nat2Z.id, nth_slots.
   cbn -[Z.of_nat prim_tree slots]. unfold m_dat. cbn -[Z.of_nat prim_tree slots].
   rewrite flatten_tmap, flatten_tmap, Hop. unfold dat_op, bind.
@@ -186,9 +186,9 @@ Proof.
   rewrite flatten_let_pat.
   assert (H2 : flatten (eval c (ESplitAt (EVar "outputs") (ELit (VI 1))) (e_filled (d :: r) :: e_outs (d :: r) n :: rest))
                = Ok (ONorm (MArr [MArr [m_dat pvv d]; MArr (slots r n)]) (e_filled (d :: r) :: e_outs (d :: r) n :: rest))).
-  { unfold e_outs. rewrite slots_cons. cbn -[Z.of_nat slots Z.ltb List.length].
+  { unfold e_outs. rewrite slots_cons. cbn -[Z.of_nat slots Z.leb List.length].
     cbn [List.length]. rewrite Nat2Z.inj_succ.
-    destruct (Z.ltb_spec (Z.succ (Z.of_nat (List.length (slots r n)))) 1) as [E|_]; [lia|]. reflexivity. }
+    destruct (Z.leb_spec 1 (Z.succ (Z.of_nat (List.length (slots r n))))) as [_|E]; [|lia]. reflexivity. }
   rewrite H2. unfold after at 1. cbn [pmatch app List.length].
   (* let value = value[0].assume_init(); the loop; Ok(Some(value)) *)
   set (env1 := ("other_outputs", MArr (slots r n)) :: ("value", MArr [m_dat pvv d]) :: e_filled (d :: r) :: e_outs (d :: r) n :: rest).
@@ -204,9 +204,9 @@ Proof.
     assert (H5 : flatten (eval c (EForRange "i" (ELit (VI 0)) (EUs 2 (EVar "outputs_filled") (ELit (VI 1))) b2) (("value", m_dat pvv d) :: env1))
                  = flatten (for_range (eval c b2) "i" 0 (List.length r) (("value", m_dat pvv d) :: env1))).
     { unfold env1, e_filled. cbn [List.length]. rewrite Nat2Z.inj_succ.
-      cbn -[Z.of_nat Z.succ slots Z.ltb Z.sub Z.to_nat for_range].
-      destruct (Z.ltb_spec (Z.succ (Z.of_nat (List.length r))) 1) as [E|_]; [lia|].
-      cbn -[Z.of_nat Z.succ slots Z.ltb Z.sub Z.to_nat for_range].
+      cbn -[Z.of_nat Z.succ slots Z.leb Z.sub Z.to_nat for_range].
+      destruct (Z.leb_spec 1 (Z.succ (Z.of_nat (List.length r)))) as [_|E]; [|lia].
+      cbn -[Z.of_nat Z.succ slots Z.leb Z.sub Z.to_nat for_range].
       replace (Z.to_nat (Z.succ (Z.of_nat (List.length r)) - 1 - 0)) with (List.length r) by lia. reflexivity. }
     rewrite H5. subst b2.
     pose proof (loop2 r [] n d (("value", MArr [m_dat pvv d]) :: e_filled (d :: r) :: e_outs (d :: r) n :: rest)) as L2.
